@@ -1,6 +1,96 @@
-(* C18: placeholder until the argument-parsing theorems are proved; concrete runs of the model. *)
-From BCL Require Import Model.Cli.
+(* C18: The command-line tool mirrors the library (argument parsing part).
+
+   Model/Cli.v is the transcription of cmd/bcl/args.go.  Flags may come in any order, before or after
+   the file argument, repeated, long or short, or clustered as single letters; usage errors are exactly
+   the documented ones; --bdump derives its file name from FILE.  That stdout/stderr/exit status equal the
+   library's is checked against the real binary (the OS is outside the model: partial). *)
+From BCL Require Import Model.Cli Proofs.CliProofs.
+Open Scope N_scope.
+
+Theorem C18_flag_order : forall l1 l2 file,
+  Forall simple_flag l1 -> Forall simple_flag l2 -> letters l1 = letters l2 ->
+  forall pre1 post1 pre2 post2, l1 = pre1 ++ post1 -> l2 = pre2 ++ post2 ->
+  is_file_arg file ->
+  parse_args (pre1 ++ [file] ++ post1) = parse_args (pre2 ++ [file] ++ post2).
+Proof. first [exact CliProofs.C18_flag_order | apply CliProofs.C18_flag_order]. Qed.
+Print Assumptions C18_flag_order.
+
+(* a cluster -abc is the same as -a -b -c, for any letters *)
+Theorem C18_cluster : forall cs more,
+  (2 <= length cs)%nat -> forallb is_lower cs = true ->
+  parse_args ((45 :: cs) :: more) = parse_args (map (fun c => [45; c]) cs ++ more).
+Proof. first [exact CliProofs.C18_cluster_gen | apply CliProofs.C18_cluster_gen]. Qed.
+Print Assumptions C18_cluster.
+
+(* no file argument: standard input *)
+Theorem C18_default_stdin : forall l, Forall simple_flag l ->
+  parse_args l = let '(d, t, r, s) := letters l in
+                 inr (mkArgs [45] d t r s false false [] [] false).
+Proof. first [exact CliProofs.C18_default_stdin | apply CliProofs.C18_default_stdin]. Qed.
+Print Assumptions C18_default_stdin.
+
+Theorem C18_bdump_name : forall l1 l2 l3 f,
+  Forall simple_flag l1 -> Forall simple_flag l2 -> Forall simple_flag l3 ->
+  is_file_arg (f ++ bs ".bcl") ->
+  parse_args (l1 ++ bs "--bdump" :: l2 ++ (f ++ bs ".bcl") :: l3) =
+  let '(d, t, r, s) := letters (l1 ++ l2 ++ l3) in
+  inr (mkArgs (f ++ bs ".bcl") d t r s true false (f ++ bs ".bcb") [] false).
+Proof. first [exact CliProofs.C18_bdump_name_gen | apply CliProofs.C18_bdump_name_gen]. Qed.
+Print Assumptions C18_bdump_name.
+
+(* usage errors *)
+Theorem C18_err_unknown_letter : forall pre x more,
+  Forall simple_flag pre ->
+  x <> 104 -> x <> 100 -> x <> 116 -> x <> 114 -> x <> 115 -> x <> 45 ->
+  parse_args (pre ++ [45; x] :: more) = inl (UUnknownFlag [45; x]).
+Proof. first [exact CliProofs.C18_err_unknown_letter | apply CliProofs.C18_err_unknown_letter]. Qed.
+Print Assumptions C18_err_unknown_letter.
+
+Theorem C18_err_unknown_long : forall pre c w more,
+  Forall simple_flag pre ->
+  let arg := 45 :: 45 :: c :: w in
+  arg <> bs "--disasm" -> arg <> bs "--trace" -> arg <> bs "--result" -> arg <> bs "--stats" ->
+  (forall r, arg <> bs "--bdump" ++ r) -> (forall r, arg <> bs "--bload" ++ r) ->
+  parse_args (pre ++ arg :: more) = inl (UUnknownFlag arg).
+Proof. first [exact CliProofs.C18_err_unknown_long | apply CliProofs.C18_err_unknown_long]. Qed.
+Print Assumptions C18_err_unknown_long.
+
+Theorem C18_err_cluster : forall pre c1 c2 cs more,
+  Forall simple_flag pre -> c1 <> 45 ->
+  forallb is_lower (c1 :: c2 :: cs) = false ->
+  parse_args (pre ++ (45 :: c1 :: c2 :: cs) :: more) = inl (UUnknownFlag (45 :: c1 :: c2 :: cs)).
+Proof. first [exact CliProofs.C18_err_cluster | apply CliProofs.C18_err_cluster]. Qed.
+Print Assumptions C18_err_cluster.
+
+Theorem C18_err_two_files : forall l1 l2 l3 f1 f2,
+  Forall simple_flag l1 -> Forall simple_flag l2 -> Forall simple_flag l3 ->
+  is_file_arg f1 -> is_file_arg f2 ->
+  parse_args (l1 ++ f1 :: l2 ++ f2 :: l3) = inl UTooMany.
+Proof. first [exact CliProofs.C18_err_two_files | apply CliProofs.C18_err_two_files]. Qed.
+Print Assumptions C18_err_two_files.
+
+Theorem C18_err_bdump_name : forall l1 l2 l3 f,
+  Forall simple_flag l1 -> Forall simple_flag l2 -> Forall simple_flag l3 ->
+  is_file_arg f -> has_suffix (bs ".bcl") f = false ->
+  parse_args (l1 ++ bs "--bdump" :: l2 ++ f :: l3) = inl UBdumpName.
+Proof. first [exact CliProofs.C18_err_bdump_name | apply CliProofs.C18_err_bdump_name]. Qed.
+Print Assumptions C18_err_bdump_name.
+
+Theorem C18_err_bload_conflict : forall l1 l2 l3 F f,
+  Forall simple_flag l1 -> Forall simple_flag l2 -> Forall simple_flag l3 ->
+  is_file_arg f -> F <> [] -> f <> [] ->
+  parse_args (l1 ++ (bs "--bload=" ++ F) :: l2 ++ f :: l3) = inl UConflict.
+Proof. first [exact CliProofs.C18_err_bload_conflict | apply CliProofs.C18_err_bload_conflict]. Qed.
+Print Assumptions C18_err_bload_conflict.
+
+(* the fuel parse_args gives its loop always suffices *)
+Theorem C18_fuel_enough : forall args n a rest,
+  (fuel_of args <= n)%nat ->
+  flags_loop n args a rest = flags_loop (fuel_of args) args a rest.
+Proof. first [exact CliProofs.parse_args_fuel_enough | apply CliProofs.parse_args_fuel_enough]. Qed.
+Print Assumptions C18_fuel_enough.
+
 Example C18_example :
-  Cli.parse_args [bs "-dts"; bs "x.bcl"] = Cli.parse_args [bs "x.bcl"; bs "-s"; bs "--trace"; bs "-d"].
-Proof. vm_compute. reflexivity. Qed.
-Print Assumptions C18_example.
+  Cli.parse_args [bs "-dts"; bs "x.bcl"] = Cli.parse_args [bs "x.bcl"; bs "-s"; bs "--trace"; bs "-d"]
+  /\ exit_status true false = 2 /\ exit_status false true = 1 /\ exit_status false false = 0.
+Proof. vm_compute. repeat split; reflexivity. Qed.
